@@ -206,8 +206,16 @@ static void case_ctr(uint64_t idx, vh_rng *r)
     if (pre) { c->ctr_encrypt(BIG[2], BIG[0], (size_t)pre, &A); c->ctr_encrypt(BIG[2], BIG[0], (size_t)pre, &Bh); }
     pc_in = pick_pc(r); pc_out = pick_pc(r);
     { int cfg[8] = {c->id + 200, be, (int)len, pre, inplace, pc_in, inplace ? 0 : pc_out, (int)clen}; if (vh_distinct(vh_hash(cfg, sizeof(cfg), VH_HASH_INIT))) VH_COUNT("distinct_placement_configurations", 1); }
+    if (!inplace && !vh_below(r, 5)) {
+        /* adjacent, non-overlapping buffers: output immediately after (or before) the input */
+        uint8_t *both = gplace(1, 2 * (size_t)len, pc_in); int after = (int)vh_below(r, 2);
+        in = after ? both : both + len; out = after ? both + len : both;
+        memcpy(in, BIG[0], len); memset(out, 0xEE, len);
+        pc_out = -9; VH_COUNT("adjacent_buffer_calls", 1);
+    } else {
     in = gplace(1, len, pc_in); memcpy(in, BIG[0], len);
     if (inplace) out = in; else { out = gplace(2, len, pc_out); memset(out, 0xEE, len); }
+    }
     vh_call_begin("ctr_encrypt"); ra &= c->ctr_encrypt(out, in, len, &A); vh_call_end();
     rb &= c->ctr_encrypt(BIG[1], BIG[0], len, &Bh);
     VH_COUNT("guarded_calls", 4); VH_COUNT("ctr_calls", 1); if (inplace) VH_COUNT("ctr_in_place_calls", 1);
@@ -247,8 +255,15 @@ static void case_par(uint64_t idx, vh_rng *r)
     vh_call_begin("parallel_set_key"); ra &= c->par_set_key(&A, kp, klen, 6, MANTIS_ENCRYPT); vh_call_end();
     rb &= c->par_set_key(&Bh, key, klen, 6, MANTIS_ENCRYPT);
     pc_in = pick_pc(r); pc_out = pick_pc(r);
+    if (!inplace && !vh_below(r, 5)) {
+        uint8_t *both = gplace(1, 2 * (size_t)len, pc_in); int after = (int)vh_below(r, 2);
+        in = after ? both : both + len; out = after ? both + len : both;
+        memcpy(in, BIG[0], len); memset(out, 0xEE, len);
+        pc_out = -9; VH_COUNT("adjacent_buffer_calls", 1);
+    } else {
     in = gplace(1, len, pc_in); memcpy(in, BIG[0], len);
     if (inplace) out = in; else { out = gplace(2, len, pc_out); memset(out, 0xEE, len); }
+    }
     if (c->id == CIPH_MANTIS) { pc_tw = pick_pc(r); tw = gplace(3, len, pc_tw); memcpy(tw, BIG[2], len); }
     { int cfg[8] = {c->id + 300, be, (int)nb, dec, inplace, pc_in, inplace ? 0 : pc_out, pc_tw}; if (vh_distinct(vh_hash(cfg, sizeof(cfg), VH_HASH_INIT))) VH_COUNT("distinct_placement_configurations", 1); }
     vh_call_begin(dec ? "parallel_decrypt" : "parallel_encrypt");
